@@ -758,3 +758,8 @@ MUTATIONS += [
 HARMLESS += [
     dict(id="H-C16-warm-up-progress-first", prop="C16", file=WU13, old="                if let Err(err) = backend.warm_up(tpe, &id) {\n                    // FIXME: Use error handling\n                    error!(\"warm-up failed for id {id:?}. {}\", err.display_log());\n                }\n                progress_bar_ref.inc(1);", new="                progress_bar_ref.inc(1);\n                if let Err(err) = backend.warm_up(tpe, &id) {\n                    // FIXME: Use error handling\n                    error!(\"warm-up failed for id {id:?}. {}\", err.display_log());\n                }"),
 ]
+
+MUTATIONS += [
+    # a recorded pack size is ignored: the size is always derived from the blob list (wrong for packs with padding/foreign layout)... and vice versa: derived size forgets the 4-byte length field
+    dict(id="C08-indexpack-size-uses-header-size", prop="C08", file="crates/core/src/repofile/indexfile.rs", old="            .unwrap_or_else(|| PackHeaderRef::from_index_pack(self).pack_size())", new="            .unwrap_or_else(|| PackHeaderRef::from_index_pack(self).size())"),
+]
